@@ -35,23 +35,27 @@ Judge(e) ==
     [] OTHER            -> JudgeMore(e)
 
 \* registers: 1 = events judged, 2 = failed VERDICT checks, 3 = failed DRIFT checks, 4 = failed TOOL checks,
-\*            5 = checks evaluated, 6 = events on which at least one VERDICT check of a selected property applied
-Report(i, cs) ==
+\*            5 = checks evaluated, 6 = events on which a VERDICT check of a selected property applied *and* that are
+\*            non-trivial (NonTrivial in PropsAll.tla), 7 = events on which a VERDICT check of a selected property applied
+ReportE(i, cs, ev) ==
   /\ \A k \in 1..Len(cs) : IF cs[k].ok THEN TRUE ELSE PrintT(<<cs[k].c, i, cs[k].p, cs[k].r>>)
   /\ TLCSet(1, TLCGet(1) + 1)
   /\ TLCSet(5, TLCGet(5) + Len(cs))
-  /\ TLCSet(6, TLCGet(6) + (IF \E k \in 1..Len(cs) : cs[k].c = "VERDICT" /\ cs[k].p \in Sel THEN 1 ELSE 0))
+  /\ TLCSet(6, TLCGet(6) + (IF (\E k \in 1..Len(cs) : cs[k].c = "VERDICT" /\ cs[k].p \in Sel) /\ NonTrivial(ev) THEN 1 ELSE 0))
+  /\ TLCSet(7, TLCGet(7) + (IF \E k \in 1..Len(cs) : cs[k].c = "VERDICT" /\ cs[k].p \in Sel THEN 1 ELSE 0))
   /\ LET bad(c) == Cardinality({k \in 1..Len(cs) : ~cs[k].ok /\ cs[k].c = c}) IN
      /\ TLCSet(2, TLCGet(2) + bad("VERDICT"))
      /\ TLCSet(3, TLCGet(3) + bad("DRIFT"))
      /\ TLCSet(4, TLCGet(4) + bad("TOOL"))
 
-Init == l = 2 /\ TLCSet(1, 0) /\ TLCSet(2, 0) /\ TLCSet(3, 0) /\ TLCSet(4, 0) /\ TLCSet(5, 0) /\ TLCSet(6, 0)
+Report(i, cs) == ReportE(i, cs, Rec[i])
+
+Init == l = 2 /\ TLCSet(1, 0) /\ TLCSet(2, 0) /\ TLCSet(3, 0) /\ TLCSet(4, 0) /\ TLCSet(5, 0) /\ TLCSet(6, 0) /\ TLCSet(7, 0)
 Next == l <= Len(Rec) /\ Report(l, Judge(Rec[l])) /\ l' = l + 1
 Spec == Init /\ [][Next]_l
 
 \* every line was consumed (one state per line: l = 2 .. Len(Rec)+1)
 Accepted ==
-  /\ PrintT(<<"STATS", TLCGet(1), TLCGet(2), TLCGet(3), TLCGet(4), TLCGet(5), Len(Rec) - 1, TLCGet(6)>>)
+  /\ PrintT(<<"STATS", TLCGet(1), TLCGet(2), TLCGet(3), TLCGet(4), TLCGet(5), Len(Rec) - 1, TLCGet(6), TLCGet(7)>>)
   /\ TLCGet("stats").diameter = Len(Rec)
 =============================================================================
